@@ -94,6 +94,12 @@ SortLess(dt, x, y) == IF IsFlt(dt) THEN (IF IsNaN(x) THEN FALSE ELSE IF IsNaN(y)
 \* identity of values for unique / run detection (NaN is not equal to NaN)
 Truth(dt, x) == IF IsFlt(dt) THEN (IsNaN(x) \/ x[1] # 0) ELSE x # 0
 
+\* exactly representable in float16 (normal range): an 11-bit significand and a magnitude of at most 65504
+RECURSIVE OddPart(_)
+OddPart(n) == IF n = 0 THEN 0 ELSE IF n % 2 = 0 THEN OddPart(n \div 2) ELSE n
+Pow2s == {1, 2, 4, 8, 16, 32, 64, 128, 256, 512, 1024, 2048, 4096, 8192, 16384}
+RepF2(q) == q[2] = 0 \/ q[1] = 0 \/ (q[2] \in Pow2s /\ OddPart(Abs(q[1])) < 2048 /\ Abs(q[1]) <= 65504 * q[2])
+
 \* ---- casting a value of dtype a to dtype b (ndarray.astype); claimed only where CastOK
 Cast(a, b, v) ==
   IF IsFlt(a) THEN
@@ -125,6 +131,8 @@ BitOp2(op, dt, x, y) == LET a == Pat16(x)  b == Pat16(y)
                         IN IF Kind(dt) = "u" THEN r ELSE (IF r >= 32768 THEN r - 65536 ELSE r)
 \* ... which is exact only for operands in the 16-bit signed range when the loop dtype is wider than 16 bits
 BitInRegime(f, dt, x, y) == (f \in BitOps /\ Bits(dt) > 16) => (x \in -32768..32767 /\ y \in -32768..32767)
+\* the product of two 16-bit unsigned values modulo 2^16 without leaving TLC's 32-bit integers
+MulMod16(x, y) == (x * (y % 256) + ((x * (y \div 256)) % 65536) * 256) % 65536
 F2(f, dt, x, y) ==
   LET fl == IsFlt(dt)
       lt == IF fl THEN QLess(x, y) ELSE x < y
@@ -132,7 +140,8 @@ F2(f, dt, x, y) ==
       nan == fl /\ (IsNaN(x) \/ IsNaN(y))
   IN CASE f = "add" -> IF fl THEN QAdd(x, y) ELSE IF dt = "b1" THEN B(x + y > 0) ELSE Wrap(dt, x + y)
        [] f = "subtract" -> IF fl THEN QAdd(x, QNeg(y)) ELSE Wrap(dt, x - y)
-       [] f = "multiply" -> IF fl THEN QMul(x, y) ELSE IF dt = "b1" THEN B(x * y > 0) ELSE Wrap(dt, x * y)
+       [] f = "multiply" -> IF fl THEN QMul(x, y) ELSE IF dt = "b1" THEN B(x * y > 0)
+                            ELSE IF dt = "u2" THEN MulMod16(x, y) ELSE Wrap(dt, x * y)
        [] f = "maximum" -> IF nan THEN NaN ELSE IF lt THEN y ELSE x
        [] f = "minimum" -> IF nan THEN NaN ELSE IF lt THEN x ELSE y
        [] f = "less" -> B(lt)  [] f = "greater" -> B(~nan /\ ~lt /\ ~eq)
